@@ -505,6 +505,9 @@ class DISPENSO_CACHELINE_ALIGNED ThreadPool {
   // lock on the schedule path. Threads check own ring first in the steal order.
   ConcurrentObjectArena<Ring> rings_;
   std::atomic<size_t> numRings_{0};
+  // Number of fully constructed entries of rings_ (never shrinks). rings_.size() itself is
+  // advanced before the new entries are constructed, so waiters scan up to this count instead.
+  std::atomic<size_t> ringsConstructed_{0};
 
   // Steal rings for non-locality work distribution.
   // Populated by schedule() (both proactive wake and no-sleeper paths).
@@ -514,6 +517,7 @@ class DISPENSO_CACHELINE_ALIGNED ThreadPool {
   //   Ring capacity = kStealSlotsPerThread * kStealRingSharing.
   ConcurrentObjectArena<StealRing> stealRings_;
   std::atomic<size_t> numStealRings_{0};
+  std::atomic<size_t> stealRingsConstructed_{0};
   size_t stealRingSharing_{kStealRingSharing};
 
   // Sparse hint for which steal rings have work. Bit i set means
@@ -740,6 +744,26 @@ inline bool ThreadPool::tryExecuteNextFromRings(size_t& startRing) {
       return true;
     }
   }
+  // Rings beyond the current count can still hold work: a bulk submission that raced a
+  // shrinking resize() may have pushed to a ring that no worker polls any more. Steal rings are
+  // otherwise only polled by pool workers, which may be stopping or blocked in waits of their
+  // own. A waiter has to be able to find both, or wait() could spin forever on a stranded task.
+  size_t total = ringsConstructed_.load(std::memory_order_acquire);
+  for (size_t idx = n; idx < total; ++idx) {
+    if (rings_[idx].try_pop(task)) {
+      startRing = 0;
+      executeNext(std::move(task));
+      return true;
+    }
+  }
+  size_t totalSteal = stealRingsConstructed_.load(std::memory_order_acquire);
+  for (size_t idx = 0; idx < totalSteal; ++idx) {
+    if (!stealRings_[idx].empty() && stealRings_[idx].try_pop(task)) {
+      startRing = 0;
+      executeNext(std::move(task));
+      return true;
+    }
+  }
   startRing = 0;
   return false;
 }
@@ -901,8 +925,6 @@ void ThreadPool::scheduleBulkToRings(
   if (count == 0) {
     return;
   }
-  assert(count <= numRings_.load(std::memory_order_relaxed));
-
   workRemaining_.fetch_add(static_cast<ssize_t>(count), std::memory_order_release);
 
   // Acquire: see tryExecuteNextFromRings. Pairs with the release store in
